@@ -165,7 +165,18 @@ func (e *sessEnv) drainSorted(prefixes ...string) string {
 			rest = append(rest, s)
 		}
 	}
-	sort.Slice(sortable, func(i, j int) bool {
+	rank := func(s string) int {
+		for i, p := range prefixes {
+			if strings.HasPrefix(s, p) {
+				return i
+			}
+		}
+		return len(prefixes)
+	}
+	sort.SliceStable(sortable, func(i, j int) bool {
+		if rank(sortable[i]) != rank(sortable[j]) {
+			return rank(sortable[i]) < rank(sortable[j])
+		}
 		a, b := strings.Fields(sortable[i]), strings.Fields(sortable[j])
 		x, _ := strconv.Atoi(a[1])
 		y, _ := strconv.Atoi(b[1])
@@ -235,6 +246,58 @@ func (e *sessEnv) exec(line string) (res string) {
 		e.st.Close(true)
 		e.isOpen = false
 		return e.drainSorted("closereq")
+	case "rebalance":
+		// a completed rebalance of the same stream object: Rebalance() closes, the (1 ms) timer reopens on the new range
+		lo, _ := strconv.Atoi(t[1])
+		hi, _ := strconv.Atoi(t[2])
+		e.lo, e.hi = lo, hi
+		e.disc.set(lo, hi)
+		done := make(chan struct{}, 1)
+		e.eh.mu.Lock()
+		e.eh.hook = func(s string) {
+			if s == "ARE" {
+				select {
+				case done <- struct{}{}:
+				default:
+				}
+			}
+		}
+		e.eh.mu.Unlock()
+		e.cl.mu.Lock()
+		e.cl.obs = map[uint16]couchbase.Observer{}
+		e.cl.mu.Unlock()
+		e.cfg.Dcp.Group.Membership.RebalanceDelay = time.Millisecond
+		e.st.Rebalance()
+		if _, err := waitCh(done, "rebalance to finish"); err != nil {
+			return "timeout:" + err.Error()
+		}
+		e.eh.mu.Lock()
+		e.eh.hook = nil
+		e.eh.mu.Unlock()
+		var vbs []uint16
+		for v := e.lo; v <= e.hi; v++ {
+			vbs = append(vbs, uint16(v))
+		}
+		e.hc = stream.NewCheckpoint(e.proxy, vbs, e.cl, e.md, e.cfg, offset.NewOffsetLatestSeqNoInit(e.cfg))
+		return e.drainSorted("closereq", "openreq")
+	case "reopen":
+		vb := uint16(u64(t[1]))
+		o := e.cl.observer(vb)
+		if o == nil {
+			return "bad:vb not streamed"
+		}
+		o.End(models.DcpStreamEnd{VbID: vb}, gocbcore.ErrDCPStreamStateChanged)
+		// reopenStream runs in its own goroutine
+		for i := 0; i < 400; i++ {
+			e.buf.mu.Lock()
+			n := len(e.buf.l)
+			e.buf.mu.Unlock()
+			if n > 0 {
+				break
+			}
+			time.Sleep(500 * time.Microsecond)
+		}
+		return joinObs(e.buf.drain())
 	case "crash":
 		// abandon the stream object; only the metadata store survives
 		for _, k := range sortedKeys(e.savers) {
